@@ -75,7 +75,8 @@ class Run:
             import ast as _ast
             import re as _re
             fnode = self.P.funcs[function].node
-            expanded = any(type(x).__name__ == 'InlineBlock' or (isinstance(x, _ast.Name) and _re.search(r'__h\d+$', x.id)) for x in _ast.walk(fnode))
+            expanded = function in getattr(self.P, 'expanded_callers', ()) or \
+                any(type(x).__name__ == 'InlineBlock' or (isinstance(x, _ast.Name) and _re.search(r'__h\d+$', x.id)) for x in _ast.walk(fnode))
             if expanded and not helpers:
                 self.defer(f'{oid} on {function.rsplit(".", 1)[1]}: the function was rebuilt around new helpers (expanded in place) and is not in a form this '
                            f'rule reads; "{what[:90]}" is not a verdict')
